@@ -85,6 +85,8 @@ fn main() {
             let lib: Vec<String> = stack::panics_since(before).into_iter().filter(|p| !p.contains("harness/src")).collect();
             if !lib.is_empty() && !s.starts_with("ORACLE-FAIL") && s != "PANIC" {
               format!("ORACLE-FAIL key=library-panic a task of the library panicked at {} (the scenario itself reported: {})", lib[0], s)
+            } else if !lib.is_empty() && s.starts_with("ORACLE-FAIL") {
+              format!("{} [meanwhile a task of the library panicked at {}]", s, lib[0])
             } else {
               s
             }
